@@ -21,6 +21,8 @@
 #endif
 #include "common.hpp"
 #include <glm/gtx/vec_swizzle.hpp>
+#include <csetjmp>
+#include <csignal>
 using namespace vh;
 
 #ifdef C17_CFG
@@ -93,6 +95,24 @@ inline void swzw(const char* op, const char* q, const char* set, const char* nm,
     Ev e(op); e.str("cfg", C17_CFGNAME).str("impl", "op").str("t", code<T>()).str("q", q).str("set", set); raw(e, "nm", nm); e.arg(before).arg(val).res(after).emit();
 }
 
+// a GLM call that faults (SIGSEGV / SIGBUS) is logged as an event instead of killing the harness
+inline sigjmp_buf& fault_jmp() { static sigjmp_buf b; return b; }
+inline void on_fault(int sig) { siglongjmp(fault_jmp(), sig); }
+template<class F, class G> inline void guarded(F&& run, G&& crashed) {
+    struct sigaction sa, o1, o2;
+    std::memset(&sa, 0, sizeof sa); sa.sa_handler = on_fault; sigemptyset(&sa.sa_mask); sa.sa_flags = SA_NODEFER;
+    sigaction(SIGSEGV, &sa, &o1); sigaction(SIGBUS, &sa, &o2);
+    int const sig = sigsetjmp(fault_jmp(), 1);
+    if (sig == 0) run(); else crashed(sig);
+    sigaction(SIGSEGV, &o1, nullptr); sigaction(SIGBUS, &o2, nullptr);
+}
+// the read of accessor nm of v (at address a16 modulo 16) raised signal sig
+template<class T, class V>
+inline void swzcrash(const char* q, const char* set, const char* nm, V const& v, long long a16, int sig) {
+    Ev e("swzcrash"); e.str("cfg", C17_CFGNAME).str("impl", "op").str("t", code<T>()).str("q", q).str("set", set); raw(e, "nm", nm);
+    e.num("addr16", a16).num("sig", sig).arg(v).emit();
+}
+
 // ---------------------------------------------------------------- quaternion constructors (called by the generated code, one call per MC_C17 "qua" line)
 template<class T, glm::qualifier Q> void qua_wxyz(const char* q) {
     T const a0 = tag<T>(0), a1 = tag<T>(1), a2 = tag<T>(2), a3 = tag<T>(3);
@@ -144,7 +164,8 @@ template<class T, glm::qualifier Q> void swizzle_ctors(const char* q) {
     C17_CSWZ(3, "[[\"z\",\"y\"],[]]", (v3.zy, s), v3, s)
     C17_CSWZ(3, "[[],[\"w\",\"x\"]]", (s, v4.wx), s, v4)
     C17_CSWZ(4, "[[\"w\",\"z\",\"y\",\"x\"]]", (v4.wzyx), v4)
-    C17_CSWZ(4, "[[\"y\",\"x\",\"x\",\"y\"]]", (v2.yxxy), v2)
+    if constexpr (!glm::detail::is_aligned<Q>::value)        // aligned vec2: see the guarded batches (the SIMD body over-reads the source)
+        C17_CSWZ(4, "[[\"y\",\"x\",\"x\",\"y\"]]", (v2.yxxy), v2)
     C17_CSWZ(4, "[[\"y\",\"x\"],[\"w\",\"z\"]]", (v2.yx, u4.wz), v2, u4)
     C17_CSWZ(4, "[[],[],[\"z\",\"y\"]]", (s, t, v3.zy), s, t, v3)
     C17_CSWZ(4, "[[],[\"w\",\"y\"],[]]", (s, v4.wy, t), s, v4, t)
